@@ -12,7 +12,6 @@ package api
 
 //@ func SharePool.sharesForStake
 //@   props C15 C05
-//@   requires p != nil && amount != nil
 //@   requires PB(p) >= 0 && PT(p) >= 0 && QV(amount) >= 0
 //@   modifies nothing
 //@   ensures PT(p) == 0 ==> err == nil && fresh(result0) && QV(result0) == QV(amount)
@@ -21,7 +20,6 @@ package api
 
 //@ func SharePool.StakeForShares
 //@   props C15 C05
-//@   requires p != nil && amount != nil
 //@   requires PB(p) >= 0 && PT(p) >= 0 && QV(amount) >= 0
 //@   modifies nothing
 //@   ensures err == nil && fresh(result0)
@@ -124,3 +122,11 @@ package api
 //@ func CommissionSchedule.AmendAndPruneAndValidate
 //@   trusted
 //@   modifies cs
+
+//@ import "github.com/oasisprotocol/oasis-core/go/common/crypto/signature"
+//@ ghost func AddrOf(pk signature.PublicKey) Address { return ufr[Address]("addrOf", pk) }
+
+//@ func NewAddress
+//@   trusted
+//@   pure
+//@   ensures a == AddrOf(pk)
